@@ -159,6 +159,7 @@ class MockLoader(LoaderBase):
             molecules=molecules,
             noise=self._noise,
             degrees=self._degrees,
+            central_axis=self._central_axis,
             order=order,
             scale=scale,
             corner_safe=corner_safe,
